@@ -1,4 +1,4 @@
-\* emission (quick): 10 kind pairs x 2 constructions, every behaviour of up to 2 calls, all edges printed
+\* emission (quick): 10 kind pairs x 2 constructions, every behaviour of up to 3 calls, all edges printed
 CONSTANTS NT = 3  NV = 1  MaxLevel = 3
   KindChoices <- McKindsEmit  TempChoices <- McTempsTwo  LinkPairs <- McLinks
 ACTION_CONSTRAINT Emit
